@@ -2181,3 +2181,158 @@ def rule_V1(repo: Repo) -> RuleResult:
             else:
                 res.ok(f, d, f"value_counts: / {t[:60]}", "not a row count", nontrivial=False)
     return res
+
+
+# ------------------------------------------------------------------------------------------------ E9 (clock and half-life in one unit)
+
+def rule_E9(repo: Repo) -> RuleResult:
+    """Time-weighted EMA: decay = 0.5 ** ((t_i - t_prev) / halflife) needs both in ONE unit.  The half-life is pd.Timedelta(..).value,
+    i.e. nanoseconds.  The integer view of the timestamps must therefore be taken after a conversion to nanosecond resolution
+    (astype('M8[ns]') / as_unit('ns')); a bare .view(int64) yields the array's own unit (pandas 3 infers s / ms / us / ns per
+    object) and the decay is off by a factor of 10^3..10^9 in the exponent."""
+    res = RuleResult("E9", "timed EMA: the integer clock is in nanoseconds, the unit of the integer half-life")
+    em = repo.mod("emas")
+    hl = em.func("_halflife_to_int")
+    if not any(isinstance(x, ast.Attribute) and x.attr == "value" for x in ast.walk(hl.node)):
+        raise AnalysisError("E9: _halflife_to_int no longer takes pd.Timedelta(..).value (nanoseconds): the unit pairing must be re-confirmed")
+    f = em.func("_times_to_int_array")
+    views = [c for c in walk_no_nested(f.node) if isinstance(c, ast.Call) and isinstance(c.func, ast.Attribute) and c.func.attr in ("view", "astype")
+             and c.args and norm(c.args[0]).strip("'\"").replace("np.", "") in ("int64", "int", "i8")]
+    views += [x for x in walk_no_nested(f.node) if isinstance(x, ast.Attribute) and x.attr == "asi8"]
+    if not views:
+        raise AnalysisError("E9: _times_to_int_array no longer takes an integer view of the timestamps")
+
+    def to_ns(e: ast.AST) -> bool:
+        for c in ast.walk(e):
+            if isinstance(c, ast.Call) and isinstance(c.func, ast.Attribute) and c.func.attr in ("astype", "as_unit") and c.args:
+                a = c.args[0]
+                txt = norm(a)
+                if "ns" in txt and ("[" in txt or c.func.attr == "as_unit"):
+                    return True
+        return False
+    for v in views:
+        recv = v.func.value if isinstance(v, ast.Call) else v.value
+        ok = to_ns(recv)
+        if not ok and isinstance(recv, ast.Name):
+            # the last assignments of the receiver before the view: one of them converts to [ns] (under a temporal-kind test or not)
+            for s in walk_no_nested(f.node):
+                if isinstance(s, ast.Assign) and s.lineno < v.lineno and any(isinstance(t, ast.Name) and t.id == recv.id for t in s.targets) and to_ns(s.value):
+                    ok = True
+        if ok:
+            res.ok(f, v, f"_times_to_int_array: {norm(v)[:70]}", "integer view taken at nanosecond resolution")
+        else:
+            res.bad(f, v, f"_times_to_int_array: {norm(v)[:70]}",
+                    "the integer view of the timestamps is taken in the array's own resolution while the half-life is in nanoseconds "
+                    "(pd.Timedelta.value): for datetime64[us] / [ms] / [s] times (what pandas 3 produces for most inputs) the exponent "
+                    "(t_i - t_prev) / halflife is too small by 10^3 / 10^6 / 10^9 and the average hardly decays")
+    return res
+
+
+# ------------------------------------------------------------------------------------------------ D10 (chunked values: producer and dispatcher agree)
+
+def rule_D10(repo: Repo) -> RuleResult:
+    """Values that arrive in several chunks (pyarrow ChunkedArray, polars with several chunks) are reduced chunk by chunk.
+    _chunk_groupby_args recognises them by TYPE (isinstance(values, NumbaList)); _group_func_wrap must therefore hand over that
+    type whenever it still considers the values chunked.  A tuple / list (what zip(*..) or a comprehension leave behind) falls
+    through to the single-array branch, where np.array_split of ragged chunks raises - the same numbers must come out for
+    every container."""
+    res = RuleResult("D10", "chunked values reach _chunk_groupby_args in the container type its dispatch test recognises")
+    nb = repo.mod("groupby.numba")
+    cons = nb.func("_chunk_groupby_args")
+    vp = "values"
+    accepted: Set[str] = set()
+    for t in walk_no_nested(cons.node):
+        if isinstance(t, ast.If):
+            for c in ast.walk(t.test):
+                if isinstance(c, ast.Call) and norm(c.func) == "isinstance" and len(c.args) == 2 and norm(c.args[0]) == vp:
+                    tt = c.args[1]
+                    accepted |= {norm(x).split(".")[-1] for x in (tt.elts if isinstance(tt, ast.Tuple) else [tt])}
+            if accepted:
+                break
+    if not accepted:
+        raise AnalysisError("D10: _chunk_groupby_args no longer recognises chunked values with an isinstance test")
+    f = nb.func("_group_func_wrap")
+    flags = [s.targets[0].id for s in walk_no_nested(f.node) if isinstance(s, ast.Assign) and len(s.targets) == 1 and isinstance(s.targets[0], ast.Name)
+             and isinstance(s.value, ast.Compare) and "len(" in norm(s.value) and vp in norm(s.value)]
+    if not flags:
+        raise AnalysisError("D10: the 'values are chunked' flag of _group_func_wrap (len(values) > 1) is not found")
+    flag = flags[0]
+
+    def kind_of(v: ast.AST, cur: str) -> str:
+        if isinstance(v, ast.Call):
+            fn = (call_name(v) or norm(v.func)).split(".")[-1]
+            if fn == "_val_to_numpy":
+                return "NumbaList" if any(k.arg == "as_list" and isinstance(k.value, ast.Constant) and k.value.value is True for k in v.keywords) else "ndarray"
+            if fn in ("NumbaList", "List"):
+                return "NumbaList"
+            if fn in ("tuple", "zip"):
+                return "tuple"
+            if fn == "list":
+                return "list"
+            if fn in ("concatenate", "asarray", "array", "hstack"):
+                return "ndarray"
+            return "unknown"
+        if isinstance(v, (ast.ListComp, ast.List)):
+            return "list"
+        if isinstance(v, (ast.Tuple, ast.GeneratorExp)):
+            return "tuple"
+        if isinstance(v, ast.Subscript) and isinstance(v.value, ast.Name) and v.value.id == vp:
+            return "ndarray" if const_int(v.slice) is not None else cur
+        return "unknown"
+
+    results: List[Tuple[str, Optional[bool], ast.AST]] = []
+
+    def run(block: List[ast.stmt], states: List[Tuple[str, Optional[bool]]]) -> List[Tuple[str, Optional[bool]]]:
+        for st in block:
+            if not states:
+                break
+            if isinstance(st, ast.Assign):
+                tg = st.targets[0]
+                if isinstance(tg, ast.Name) and tg.id == vp:
+                    states = [(kind_of(st.value, k), fl) for k, fl in states]
+                elif isinstance(tg, (ast.Tuple, ast.List)) and tg.elts and isinstance(tg.elts[0], ast.Name) and tg.elts[0].id == vp:
+                    states = [("tuple" if "zip(" in norm(st.value) else "unknown", fl) for k, fl in states]
+                elif isinstance(tg, ast.Name) and tg.id == flag:
+                    v = st.value
+                    nv = v.value if isinstance(v, ast.Constant) and isinstance(v.value, bool) else None
+                    states = [(k, nv) for k, fl in states]
+                elif any(isinstance(k_, ast.keyword) and k_.arg == vp and norm(k_.value) == vp for k_ in ast.walk(st.value)) \
+                        or (isinstance(st.value, ast.Call) and norm(st.value.func) == "locals"):
+                    results.extend((k, fl, st) for k, fl in states)
+            elif isinstance(st, ast.If):
+                t = st.test
+                pol = None
+                if isinstance(t, ast.Name) and t.id == flag:
+                    pol = True
+                elif isinstance(t, ast.UnaryOp) and isinstance(t.op, ast.Not) and isinstance(t.operand, ast.Name) and t.operand.id == flag:
+                    pol = False
+                if pol is None:
+                    a = run(st.body, list(states))
+                    b = run(st.orelse, list(states))
+                else:
+                    a = run(st.body, [(k, pol) for k, fl in states if fl is None or fl is pol])
+                    b = run(st.orelse, [(k, not pol) for k, fl in states if fl is None or fl is (not pol)])
+                states = list(dict.fromkeys(a + b))
+            elif isinstance(st, (ast.Return, ast.Raise)):
+                return []
+            elif isinstance(st, (ast.For, ast.While, ast.With, ast.Try)):
+                states = run(getattr(st, "body", []), states)
+        return states
+    run(f.node.body, [("unknown", None)])
+    if not results:
+        raise AnalysisError("D10: the keyword table of _group_func_wrap (values=values) is not found")
+    seen = set()
+    for k, fl, st in results:
+        if (k, fl) in seen:
+            continue
+        seen.add((k, fl))
+        if fl is False or k == "unknown" or k == "ndarray":
+            continue
+        if k in accepted:
+            res.ok(f, st, f"_group_func_wrap: chunked values handed over as {k}", f"recognised by isinstance(values, {'/'.join(sorted(accepted))})")
+        else:
+            res.bad(f, st, f"_group_func_wrap: chunked values handed over as {k}",
+                    f"on the path where the values are still chunked they are a {k}, but _chunk_groupby_args recognises chunked values only by "
+                    f"isinstance(values, {'/'.join(sorted(accepted))}): they fall through to the single-array branch, np.array_split of "
+                    f"ragged chunks raises ValueError - a pyarrow ChunkedArray with more than one chunk cannot be reduced by the group_* kernels")
+    return res
